@@ -298,6 +298,28 @@ func parseDres(s string) info.DebuffRESMap {
 	return m
 }
 
+// "has at least one of these flags", asked with several flags in every order (all ordered pairs of the query set, one triple, none)
+var flagQuerySet = []int{1, 100, 101, 102, 103}
+
+func anyFlagQueries(has func(...model.BehaviorFlag) bool) []int {
+	var out []int
+	bit := func(b bool) int {
+		if b {
+			return 1
+		}
+		return 0
+	}
+	for _, x := range flagQuerySet {
+		for _, y := range flagQuerySet {
+			if x != y {
+				out = append(out, bit(has(model.BehaviorFlag(x), model.BehaviorFlag(y))))
+			}
+		}
+	}
+	out = append(out, bit(has(102, 1, 103)), bit(has(103, 102, 100)), bit(has()))
+	return out
+}
+
 func flagsOf(st *info.Stats) []int {
 	var out []int
 	for _, f := range []int{1, 100, 101, 103} {
@@ -538,7 +560,9 @@ func (modComp) Exec(c *wire.Case, w *wire.Writer) {
 				F("atkpct", st.GetProperty(prop.ATKPercent)).F("reduce", st.GetProperty(prop.AllDamageReduce)).F("atk", st.ATK()).F("spd", st.SPD()).F("cc", st.GetProperty(prop.CritChance)).
 				S("weaks", strings.Join(weaks, ";")).Is("weak", weakTo).S("dress", strings.Join(dress, ";")).
 				Is("scounts", []int{st.StatusCount(0), st.StatusCount(1), st.StatusCount(2)}).Is("flags", flagsOf(st)).
-				Fs("dres", []float64{st.GetDebuffRES(100), st.GetDebuffRES(101), st.GetDebuffRES(103)}))
+				Fs("dres", []float64{st.GetDebuffRES(100), st.GetDebuffRES(101), st.GetDebuffRES(103)}).
+				Is("anyflag", anyFlagQueries(func(fs ...model.BehaviorFlag) bool { return st.HasBehaviorFlag(fs...) })).
+				Is("mgrflag", anyFlagQueries(func(fs ...model.BehaviorFlag) bool { return sess.mgr.HasFlag(key.TargetID(id), fs...) })))
 		}
 	}
 	modSess = nil
